@@ -55,6 +55,7 @@ def spec_of(cfg):
     s = [(f'economics.{n}', 'real', lo, hi) for n, lo, hi in REALS]
     s += [(f'economics.{f}', 'bool', None, None) for f in ALL_FLAGS if f not in cfg['flags']]
     s += [('wellbores.redrill', 'real', 0, 50), ('wellbores.nprod', 'real', 1, 200), ('wellbores.ninj', 'real', 0, 200)]
+    s += [('surfaceplant.piping_length', 'real', 0, 100)]
     kind = cfg['kind']
     if kind == 'district-heating':
         s += [('economics.dhtotaldistrictnetworkcost', 'real', 0, 1000), ('economics.dhpipinglength', 'real', 0, 10000),
